@@ -1,7 +1,7 @@
 (* Property C17: all memory goes through the user's allocators and is released at finish.
    Only the property theorems, each closed by [exact] and followed by Print Assumptions. *)
 From Coq Require Import List NArith Bool.
-From MirV Require Import C19.Varr C17.Alloc C17.AllocProofs C17.VarrTrace C17.CodeHolder C17.CodeHolderProofs C17.Frame.
+From MirV Require Import C19.Varr C17.Alloc C17.AllocProofs C17.VarrTrace C17.CodeHolder C17.CodeHolderProofs C17.Frame C17.HtabTrace.
 
 (* The executable monitor that the check runs on the allocator-call traces of the real library
    accepts a trace exactly when the trace satisfies the contract of CUSTOM-ALLOCATORS.md stated
@@ -64,3 +64,29 @@ Theorem interleaving_finish_accepted : forall a b t,
   accepts (t ++ (Finish :: nil)) = true.
 Proof. exact interleaving_finish_accepted_lemma. Qed.
 Print Assumptions interleaving_finish_accepted.
+
+(* The hash-table container (mir-htab.h): HTAB_CREATE mallocs a descriptor and creates two VARRs (els, entries);
+   every later allocator call of the table is a VARR expand / tailor of one of them (HTAB_DO doubles both when the
+   element array is full); HTAB_DESTROY destroys both and frees the descriptor.  For EVERY pair of VARR operation
+   scripts, every choice of pairwise different non-null blocks and EVERY interleaving of the two VARRs' events, the
+   trace  malloc descriptor, interleaving, free descriptor, Finish  meets the contract: true old sizes on every
+   realloc, no double free, nothing live at the end.  (Composition of varr_traces_accepted with the frame rule.) *)
+Theorem htab_traces_accepted :
+  forall hsz h eA dzA dA iA pA oA qA eB dzB dB iB pB oB qB t,
+    h <> 0%N -> ~ In h (varr_ptrs dA pA qA) -> ~ In h (varr_ptrs dB pB qB) ->
+    (forall x, In x (varr_ptrs dA pA qA) -> ~ In x (varr_ptrs dB pB qB)) ->
+    dA <> 0%N -> pA <> 0%N -> pA <> dA -> Forall (fun q => q <> 0%N /\ q <> dA) qA ->
+    dB <> 0%N -> pB <> 0%N -> pB <> dB -> Forall (fun q => q <> 0%N /\ q <> dB) qB ->
+    merge (varr_body eA dzA dA iA pA oA qA) (varr_body eB dzB dB iB pB oB qB) t ->
+    accepts (Malloc h hsz :: t ++ (Free h :: Finish :: nil)) = true.
+Proof. exact htab_traces_accepted_lemma. Qed.
+Print Assumptions htab_traces_accepted.
+
+(* The bitmap container (mir-bitmap.h): a bitmap is a VARR of 8-byte elements (bitmap_create2 = VARR_CREATE,
+   bitmap_destroy = VARR_DESTROY, growth through VARR_PUSH / VARR_EXPAND). *)
+Theorem bitmap_traces_accepted :
+  forall dsz d init p ops qs,
+    d <> 0%N -> p <> 0%N -> p <> d -> Forall (fun q => q <> 0%N /\ q <> d) qs ->
+    accepts (bitmap_trace dsz d init p ops qs) = true.
+Proof. exact bitmap_traces_accepted_lemma. Qed.
+Print Assumptions bitmap_traces_accepted.
